@@ -11,7 +11,7 @@ import random
 
 import numpy as np
 
-from harness.common import DTYPE_COQ, LAYOUTS, HarnessError, cbool, clist, cnat, copt, cstr, cz, dtype_name, relayout
+from harness.common import DTYPE_COQ, LAYOUTS, HarnessError, big_endian, cbool, clist, cnat, copt, cstr, cz, dtype_name, relayout
 from harness.storelib import Interner, abstract_meta_obj, c_arr, c_meta, enc_arr, enc_value
 
 INT_DTYPES = ["int8", "int16", "int32", "int64", "uint8", "uint16", "uint32", "uint64"]
@@ -31,7 +31,8 @@ def to_np(a: dict) -> np.ndarray:
         arr = np.array(data, dtype=str) if data else np.empty(0, dtype="<U1")
     else:
         arr = np.array(data, dtype=dt)
-    return relayout(arr.reshape(a["shape"]), a.get("layout"))
+    arr = relayout(arr.reshape(a["shape"]), a.get("layout"))
+    return big_endian(arr) if a.get("be") else arr
 
 
 def prop_to_np(p: dict) -> dict:
@@ -137,12 +138,21 @@ def rand_vlen(rng, n, dt=None, rank=None) -> dict:
 
 
 def rand_prop(rng, n, allow_vlen=True) -> dict:
+    """one property; with probability 1/8 all its value arrays are in non-native byte order (one byte order per property)"""
+    be = rng.random() < 0.125
     if allow_vlen and n > 0 and rng.random() < 0.25:
-        return {"values": rand_vlen(rng, n), "missing": rand_mask(rng, n)}
+        v = rand_vlen(rng, n)
+        if be:
+            for e in v["vlen"]:
+                e["be"] = True
+        return {"values": v, "missing": rand_mask(rng, n)}
     dt = rng.choice(PROP_DTYPES)
     rank = rng.choice([1, 1, 2, 3])
     shape = [n] + [rng.choice([0, 1, 2, 3]) for _ in range(rank - 1)]
-    return {"values": rand_array(rng, dt, shape), "missing": rand_mask(rng, n)}
+    a = rand_array(rng, dt, shape)
+    if be:
+        a["be"] = True
+    return {"values": a, "missing": rand_mask(rng, n)}
 
 
 def rand_name(rng, used) -> str:
@@ -214,6 +224,8 @@ def rand_graph(rng: random.Random, max_n=6, max_e=6, max_props=4, axes=True) -> 
         lay = rng.choice(LAYOUTS)
         if lay != "C":
             g[k]["layout"] = lay
+    if rng.random() < 0.1:  # ids and edge ids in the same non-native byte order
+        g["nids"]["be"] = g["eids"]["be"] = True
     return g
 
 
